@@ -81,6 +81,13 @@ type setupReply struct {
 	Err     error
 }
 
+// relay asks a meta process to send PL to its parent process (the self-send path of process.SendPID, used
+// while the parent may be asleep) and to report the result
+type relay struct {
+	PL  payload
+	Res chan error
+}
+
 type spawnMeta struct {
 	M    *actors.Meta
 	Opt  gen.MetaOptions
@@ -304,6 +311,8 @@ func metaHooksFor(c *cctx) *actors.MetaHooks {
 	return &actors.MetaHooks{
 		Msg: func(m *actors.Meta, from gen.PID, msg any) error {
 			switch x := msg.(type) {
+			case relay:
+				x.Res <- m.Send(m.Parent(), x.PL)
 			case payload:
 				c.logDirect(x.ID)
 				spin(x.Spin)
@@ -393,6 +402,7 @@ type sendCmd struct {
 	// CallTimeout in seconds (0 = framework default)
 	CallTimeout int
 	Out         []sres
+	Harness     string // non-empty: the harness itself failed (case inconclusive)
 	Done        chan struct{}
 }
 
@@ -429,6 +439,19 @@ func runSends(api sapi, c *sendCmd) {
 			err = api.exit(c.To.(gen.PID), exitReason{ID: id})
 		case "log":
 			api.log(id) // no result: the logger interface is fire-and-forget
+		case "viameta":
+			// c.To is the alias of a meta process of the receiver: the meta process does the send
+			res := make(chan error, 1)
+			if e := api.send(c.To, relay{PL: pl, Res: res}, gen.MessagePriorityNormal); e != nil {
+				c.Harness = "relay to meta refused: " + e.Error()
+				return
+			}
+			select {
+			case err = <-res:
+			case <-time.After(20 * time.Second):
+				c.Harness = "meta process did not relay"
+				return
+			}
 		}
 		c.Out = append(c.Out, sres{id, err})
 		if err == gen.ErrTimeout {
